@@ -177,6 +177,7 @@ structure Dbg where
   log : List Ev := []
 
 inductive Res (α : Type) | ok (a : α) | err (e : CErr) | panic
+deriving DecidableEq
 
 def M (α : Type) := Dbg → Res α × Dbg
 
